@@ -144,9 +144,30 @@ def state_fp():
     out = {}
     for mn, mod in list(sys.modules.items()):
         if mn.startswith("_gettsim") and mod is not None and not mn.startswith("_gettsim_tests"):
-            out[mn] = {k: id(v) for k, v in vars(mod).items()
+            out[mn] = {k: (id(v), _content(v) if k != "TIME_DEPENDENT_FUNCTIONS" else 0) for k, v in vars(mod).items()
                        if not k.startswith("__") and (callable(v) or isinstance(v, (dict, list, bool, str, int, float)))}
     return out
+
+
+def _content(v):
+    """content digest of module-level containers (identity alone does not see an in-place edit)"""
+    if isinstance(v, (dict, list)):
+        try:
+            return hashlib.sha1(repr(v).encode()).hexdigest()[:12]
+        except Exception:  # noqa: BLE001
+            return 0
+    return 0
+
+
+SPECS = {
+    # user-provided aggregation specs: two re-define columns GETTSIM defines itself, one adds new columns
+    "override_group": (dict(anz_kinder_hh=dict(source_col="kind_bis_17", aggr="sum"),
+                            anz_erwachsene_fg=dict(source_col="rentner", aggr="sum")), {}),
+    "override_pid": ({}, dict(ges_pflegev_anz_kinder_bis_24_elternteil_1=dict(
+        p_id_to_aggregate_by="p_id_kinderfreib_empfänger_1", source_col="kind_bis_17", aggr="sum"))),
+    "new": (dict(verif_lohn_m_hh=dict(source_col="bruttolohn_m", aggr="sum")),
+            dict(verif_kinder_des_elternteils=dict(p_id_to_aggregate_by="p_id_elternteil_1", source_col="kind", aggr="sum"))),
+}
 
 
 def diff_fp(a, b):
@@ -222,13 +243,20 @@ def run_history(history):
                 d_before = data_digest(data)
                 d_ids = {k: id(v) for k, v in data.items()} if isinstance(data, dict) else None
                 d_dtypes = {k: str(v.dtype) for k, v in (data.items() if isinstance(data, dict) else data.items())}
+                kw = {}
+                if call.get("specs"):
+                    g_specs, p_specs = copy.deepcopy(SPECS[call["specs"]])
+                    kw = dict(aggregate_by_group_specs=g_specs, aggregate_by_p_id_specs=p_specs)
+                    if call["specs"] == "new":
+                        targets = [*targets, "verif_lohn_m_hh", "verif_kinder_des_elternteils"]
+                    s_snap = copy.deepcopy(kw)
                 p_snap = copy.deepcopy(p)
                 f_snap = dict(f)
                 t_snap = list(targets)
                 with warnings.catch_warnings():
                     warnings.simplefilter("ignore")
                     out = env.compute_taxes_and_transfers(data, p, f, targets=targets, rounding=call["rounding"],
-                                                          debug=call["debug"])
+                                                          debug=call["debug"], **kw)
                 rec["digest"] = frame_digest(out)
                 rec["columns"] = hashlib.sha1(",".join(out.columns).encode()).hexdigest()[:12]
                 rec["call"] = call
@@ -247,6 +275,8 @@ def run_history(history):
                     rec["findings"].append("mutation:functions")
                 if t_snap != targets:
                     rec["findings"].append("mutation:targets")
+                if kw and kw != s_snap:
+                    rec["findings"].append("mutation:aggregation_specs")
         except Exception as e:  # noqa: BLE001
             rec["exception"] = f"{type(e).__name__}: {str(e)[:200]}"
         ch = diff_fp(fp0, state_fp())
